@@ -243,6 +243,9 @@ type c18Exec struct {
 	problems   map[string]bool    // reasons the run is undecided
 	escapes    map[string]bool    // internal state handed to foreign code
 	curTop     string
+	// inlined records every function body that was interpreted as a callee (depth>0)
+	// of the method under test; shared by all runs of one property run (may be nil).
+	inlined map[*ssa.Function]bool
 }
 
 const c18StepLimit = 20000
@@ -320,6 +323,9 @@ func (x *c18Exec) call(fn *ssa.Function, args []c18V, binds []c18V, st *c18State
 	if len(fn.Blocks) == 0 {
 		x.undecided("no body for %s", fn.Name())
 		return nil
+	}
+	if depth > 0 && x.inlined != nil {
+		x.inlined[fn] = true
 	}
 	env := c18Env{}
 	if len(args) != len(fn.Params) {
